@@ -1,1 +1,5 @@
-import Mp.EvalS
+import Mp.PermProofs
+import Mp.C11Bridge
+/-! C11 — evaluation is pure / independent of map iteration order: property theorems. -/
+#print axioms PermP.findKey_perm
+#print axioms Mp.findMapKey_order_independent
